@@ -16,6 +16,7 @@
 #include <sys/mman.h>
 #include <sys/prctl.h>
 #include <sys/resource.h>
+#include <sys/time.h>
 #include "hlib.h"
 #include "CppUTest/TestHarness.h"
 #include "CppUTest/TestRegistry.h"
@@ -26,7 +27,12 @@
 #include "CppUTest/PlatformSpecificFunctions.h"
 using namespace hl;
 
-enum { DEADLINE_S = 10, RUNAWAY = 300 };
+enum { RUNAWAY = 300 };
+// deadline of one scenario: generous until the implementation has shown that it hangs, then short (never shortened on a healthy run)
+static int gLates = 0;
+static long deadlineMs();
+static long deadlineMs() { return gLates == 0 ? 4000 : gLates == 1 ? 1000 : 100; }
+static void setDeadline(long ms) { struct itimerval it; memset(&it, 0, sizeof it); it.it_value.tv_sec = ms / 1000; it.it_value.tv_usec = (ms % 1000) * 1000; setitimer(ITIMER_REAL, &it, 0); }
 
 struct Act { int kind; int arg; };                      // 0 raise, 1 _exit, 2 fail
 struct Wout { int kind; int status; };                  // 0 EINTR, 1 other error, 2 status word
@@ -48,7 +54,8 @@ static volatile sig_atomic_t gLate;
 static volatile pid_t gLiveChild;
 static bool gRunaway;
 
-static void onAlarm(int) { gLate = 1; if (gLiveChild > 0) kill(gLiveChild, SIGKILL); }
+static void setDeadline(long ms);
+static void onAlarm(int) { gLate = 1; if (gLiveChild > 0) kill(gLiveChild, SIGKILL); setDeadline(100); }   // re-armed: later tests of the scenario may hang too
 static void onCont(int) { if (gCur >= 0) gT[gCur].conts++; }   // only ever raised synchronously by the runner's kill(own pid, SIGCONT)
 
 static void interp(const std::vector<Act>& v, bool plugin, TestResult* res, UtestShell* sh)
@@ -153,7 +160,7 @@ static int forkWrapper(void)
         prctl(PR_SET_PDEATHSIG, SIGKILL);
         signal(SIGALRM, SIG_DFL);
         signal(SIGCONT, SIG_DFL);
-        alarm(0);
+        { struct itimerval z; memset(&z, 0, sizeof z); setitimer(ITIMER_REAL, &z, 0); }
         return 0;
     }
     if (p > 0) { d.cpid = p; gLiveChild = p; }
@@ -268,9 +275,10 @@ static int mainLoop()
             if (gAllSep) reg.setRunTestsInSeperateProcess();
             RecOutput out;
             TestResult result(out);
-            alarm(DEADLINE_S);
+            setDeadline(deadlineMs());
             reg.runAllTests(result);
-            alarm(0);
+            setDeadline(0);
+            if (gLate) gLates++;
             total = result.getFailureCount(); runCount = result.getRunCount(); isFail = result.isFailure();
             reg.setCurrentRegistry(savedReg);
             for (int i = 0; i < n; i++) delete shells[i];
